@@ -166,6 +166,11 @@ def all_bodies(thorough):
         for e in encs:
             out.append({"framing": "sse", "content": c, "enc": e})
     out.append({"framing": "sse", "content": "notifs+response", "enc": "mixed"})
+    # events WITHOUT data ahead of the messages (a typed keep-alive, a comment-only block): nothing to dispatch, and the
+    # event type they set must not stick to the events that follow
+    for c in ("response", "notifs+response"):
+        for e in (list(ENCS) if thorough else ENCS_SHORT):
+            out.append({"framing": "sse", "content": c, "enc": e, "noise": "dataless-events-first"})
     out.append({"framing": "sse-array-event", "content": "notifs+response"})
     out.append({"framing": "sse-array-event", "content": "response"})
     for fr, c, e in (("json", "response", None), ("json", "notifs+response", None), ("sse", "response", "canonical"),
@@ -204,6 +209,8 @@ def body_class(ans):
         s += "[" + b["enc"] + "]"
     if b.get("content"):
         s += ":" + b["content"]
+    if b.get("noise"):
+        s += ":" + b["noise"]
     if b.get("damage"):
         s += ":" + b["damage"]
     return s
@@ -267,6 +274,8 @@ def finish_step(st, encoded):
         raw = RAW[fr]
     elif fr in ("sse", "sse-array-event"):
         raw = encoded.encode()
+        if b.get("noise") == "dataless-events-first":
+            raw = b"event: ping\n\n: only a comment\n\nevent:keepalive\r\nid: 7\r\n\r\n" + raw
     else:
         raise lib.HarnessError(f"unknown framing {fr}")
     dmg = b.get("damage")
